@@ -1180,3 +1180,116 @@ Section Term.
     pose proof (unl_le (enter main init)). lia.
   Qed.
 End Term.
+
+(* ------------------------------------------------------------------ classes are created by reading files only *)
+Section Count.
+  Variable fs : list (list N * gfile).
+
+  Notation nrules := (nrules fs).
+  Notation nrules_of := (nrules_of fs).
+
+  Definition Delta (s s' : st) : Prop :=
+    exists new, loads s' = loads s ++ new /\ created s' = created s + nrules_of new.
+
+  Lemma Delta_refl s : Delta s s.
+  Proof. exists []. split; [rewrite app_nil_r; reflexivity | unfold Imports.nrules_of; cbn; lia]. Qed.
+
+  Lemma Delta_trans a b c : Delta a b -> Delta b c -> Delta a c.
+  Proof.
+    intros (n1 & L1 & C1) (n2 & L2 & C2). exists (n1 ++ n2). split.
+    - rewrite L2, L1, app_assoc. reflexivity.
+    - rewrite C2, C1. unfold Imports.nrules_of. rewrite map_app, list_sum_app. lia.
+  Qed.
+
+  Lemma Delta_same s s' : loads s' = loads s -> created s' = created s -> Delta s s'.
+  Proof. intros L C. exists []. split; [rewrite app_nil_r; exact L | unfold Imports.nrules_of; cbn; lia]. Qed.
+
+  Definition CountSpec (fuel : nat) : Prop := forall stk ns s,
+    serr (load fuel fs stk ns s) = None -> Delta s (load fuel fs stk ns s).
+
+  Lemma count_import fuel stk cur imp t : CountSpec fuel ->
+    serr (new_import (load fuel fs stk) stk cur imp t) = None ->
+    Delta t (new_import (load fuel fs stk) stk cur imp t).
+  Proof.
+    intros IH. rewrite new_import_src_doc. unfold new_import_doc. destruct (has_err t); [intros _; apply Delta_refl|].
+    set (a := abs_import cur imp).
+    destruct (has_ns t a) eqn:Ha.
+    - set (s1 := if mem_str a stk then note_back cur a t else t).
+      assert (E : loads s1 = loads t /\ created s1 = created t) by (unfold s1; destruct (mem_str a stk); split; reflexivity).
+      destruct E as [E1 E2]. destruct (has_err s1); intros _; apply Delta_same; cbn [loads created add_imported]; assumption.
+    - set (s1 := load fuel fs stk a (enter a t)).
+      destruct (has_err s1) eqn:He1; [intro H; apply has_err_false in H; congruence|].
+      apply has_err_false in He1. intros _.
+      apply (Delta_trans _ (enter a t)); [apply Delta_same; reflexivity|].
+      apply (Delta_trans _ s1); [apply IH; exact He1 | apply Delta_same; reflexivity].
+  Qed.
+
+  Lemma count_imports fuel stk cur imps : CountSpec fuel -> forall t,
+    serr (fold_left (fun s imp => new_import (load fuel fs stk) stk cur imp s) imps t) = None ->
+    Delta t (fold_left (fun s imp => new_import (load fuel fs stk) stk cur imp s) imps t).
+  Proof.
+    intro IH. induction imps as [|i imps IHi]; intros t He; cbn [fold_left] in *; [apply Delta_refl|].
+    set (t1 := new_import (load fuel fs stk) stk cur i t) in *.
+    assert (He1 : serr t1 = None).
+    { destruct (serr t1) eqn:E; [|reflexivity]. rewrite fold_imports_err in He by (rewrite E; discriminate). congruence. }
+    apply (Delta_trans _ t1); [apply count_import; assumption | apply IHi; exact He].
+  Qed.
+
+  Lemma count_classes ns rs : forall s, serr s = None ->
+    loads (fold_left (fun s r => new_class ns r s) rs s) = loads s /\
+    created (fold_left (fun s r => new_class ns r s) rs s) = created s + length rs.
+  Proof.
+    induction rs as [|r rs IH]; intros s He; cbn [fold_left length]; [split; [reflexivity | lia]|].
+    assert (Hf : has_err s = false) by (apply has_err_false; exact He).
+    assert (He' : serr (new_class ns r s) = None) by (unfold new_class; rewrite Hf; exact He).
+    destruct (IH _ He') as [A B]. rewrite A, B. unfold new_class. rewrite Hf. cbn [loads created]. split; [reflexivity | lia].
+  Qed.
+
+  Lemma load_count : forall fuel, CountSpec fuel.
+  Proof.
+    induction fuel as [|fuel IH]; intros stk ns s; cbn [load];
+      (destruct (has_err s); [intros _; apply Delta_refl|]);
+      (destruct (aget ns fs) as [f|] eqn:Hf; [|cbn [serr set_err]; discriminate]).
+    - cbn [serr set_err]; discriminate.
+    - cbv zeta.
+      set (s0 := log_load ns s).
+      set (s1 := fold_left _ (gimports f) s0).
+      set (s2 := fold_left _ (grules f) s1).
+      intro Hfin.
+      assert (He2 : serr s2 = None).
+      { destruct (serr s2) eqn:E; [|reflexivity]. rewrite second_pass_err in Hfin by (rewrite E; discriminate). congruence. }
+      assert (He1 : serr s1 = None).
+      { destruct (serr s1) eqn:E; [|reflexivity]. exfalso.
+        assert (X : s2 = s1).
+        { unfold s2. generalize (grules f). intro rs. induction rs as [|r rs IHrs]; cbn [fold_left]; [reflexivity|].
+          rewrite new_class_err by (rewrite E; discriminate). exact IHrs. }
+        rewrite X in He2. congruence. }
+      destruct (count_imports fuel (ns :: stk) ns (gimports f) IH s0 He1) as (new & L1 & C1). fold s1 in L1, C1.
+      destruct (count_classes ns (grules f) s1 He1) as [L2 C2]. fold s2 in L2, C2.
+      assert (E : loads (second_pass ns f s2) = loads s2 /\ created (second_pass ns f s2) = created s2).
+      { destruct (second_pass_cases ns f s2 He2) as [[e ->]|[-> _]]; split; reflexivity. }
+      destruct E as [L3 C3].
+      exists (ns :: new). split.
+      + rewrite L3, L2, L1. unfold s0. cbn [loads log_load]. rewrite <- app_assoc. reflexivity.
+      + assert (Hn : nrules ns = length (grules f)) by (unfold Imports.nrules; rewrite Hf; reflexivity).
+        rewrite C3, C2, C1. unfold s0. cbn [created log_load].
+        change (nrules_of (ns :: new)) with (nrules ns + nrules_of new). rewrite Hn. lia.
+  Qed.
+
+  (* a successful load creates, besides the 9 built-in classes, exactly one class per rule of
+     every file read *)
+  Lemma created_count main : serr (load_main fs main) = None ->
+    created (load_main fs main) = length base_names + nrules_of (loads (load_main fs main)).
+  Proof.
+    intro He. unfold load_main in *. destruct (load_count _ _ _ _ He) as (new & L & C).
+    rewrite C, L. reflexivity.
+  Qed.
+End Count.
+
+Lemma one_class_set fs main : main <> BASE ->
+  (forall a n c a' n' c',
+     lookup_in (load_main fs main) a n = Some c -> lookup_in (load_main fs main) a' n' = Some c' ->
+     c_id c = c_id c' -> a = a' /\ n = n') /\
+  (serr (load_main fs main) = None ->
+   created (load_main fs main) = length base_names + nrules_of fs (loads (load_main fs main))).
+Proof. intro H. split; [apply classes_distinct; exact H | apply created_count]. Qed.
